@@ -123,6 +123,7 @@ type FnCtx struct {
 	nbarrier int
 	isClosure bool            // verifying a function literal: free variables are captured (symbolic) values
 	entryScope map[string]Val
+	entryLocks []string
 }
 
 func (fc *FnCtx) warn(format string, a ...any) {
@@ -311,7 +312,7 @@ func (fc *FnCtx) typeInv(st *State, v Val, depth int) []string {
 		out = append(out, fmt.Sprintf("(and (<= 0 %s) (<= %s %s))", v.T, v.T, st.top))
 	case *types.Map:
 		out = append(out, fmt.Sprintf("(and (<= 0 %s) (<= %s %s))", v.T, v.T, st.top))
-		out = append(out, fmt.Sprintf("(>= %s 0)", sel(fc.comp(st, mapLenKey, mapLenSort), v.T)))
+		out = append(out, fmt.Sprintf("(and (>= %[1]s 0) (<= %[1]s %[2]s))", sel(fc.comp(st, mapLenKey, mapLenSort), v.T), MaxAlloc))
 	case *types.Slice:
 		out = append(out, fmt.Sprintf("(and (<= 0 (s_base %[1]s)) (<= (s_base %[1]s) %[2]s) (= 0 (s_off %[1]s)) (<= 0 (s_len %[1]s)) (<= (s_len %[1]s) (s_cap %[1]s)) (<= (s_cap %[1]s) %[3]s) (=> (= (s_base %[1]s) 0) (= (s_cap %[1]s) 0)))", v.T, st.top, MaxAlloc))
 	case *types.Struct:
